@@ -26,6 +26,7 @@ import (
 )
 
 const verifDir = "/verif"
+
 var repoDir = func() string {
 	if d := os.Getenv("VERIF_REPO"); d != "" {
 		return d // a scratch worktree (regression runs over seeded changes); default is /repo
